@@ -11,6 +11,17 @@ R_RANGE = "E3.unbounded-iter"
 R_SCC = "E2.recursion"
 R_SUP = "E3.support"
 
+_KNOWN = None
+
+
+def known_functions():
+    global _KNOWN
+    if _KNOWN is None:
+        import os
+        p = os.path.join(common.HERE, "tables", "known_functions.txt")
+        _KNOWN = set(l.strip() for l in open(p) if l.strip() and not l.startswith("#"))
+    return _KNOWN
+
 
 # ---------------------------------------------------------------------------
 # supporting obligations of table entries
@@ -532,16 +543,86 @@ class Surface:
         chk.fail(rule, inst_key, where, "unreviewed " + detail)
         return False
 
+    def views(self, bodies):
+        """Functions that did not exist on the pinned tree (rules/tables/known_functions.txt) are helpers introduced
+        by a later change: their code is judged inlined into the known functions that call them (same keys, same
+        guards as before the extraction) and they are skipped standalone when every use is such a call."""
+        from analysis import inline
+        known = known_functions()
+        def top(k):
+            return k.split("::{closure")[0]
+        new = set(top(b.key) for b in bodies if top(b.key) not in known)
+        if not new:
+            return list(bodies)
+        def pol(root_key, callee, depth):
+            return top(callee.key) in new and depth <= 4 and len(callee.blocks) <= 400
+        pol.__name__ = "new_helpers:" + ",".join(sorted(new))
+        g = self.P.callgraph()
+        # a new helper must also be kept standalone if it is used other than by a resolved direct call
+        standalone = set()
+        for b in self.P.bodies.values():
+            for bb, o in b.iter_operands():
+                if o.get("k") == "const" and o.get("fn"):
+                    f = norm(o.get("fn_resolved") or o["fn"])
+                    if top(f) in new:
+                        standalone.add(top(f))
+        called = set()
+        out = []
+        for b in bodies:
+            if top(b.key) in new and top(b.key) not in standalone:
+                continue
+            if b.is_closure:
+                out.append(b)
+                continue
+            v = inline.inlined(self.P, b.key, pol)
+            called |= set(top(k) for k in getattr(v, "inlined_callees", []))
+            out.append(v)
+        for b in bodies:
+            if top(b.key) in new and top(b.key) not in standalone and top(b.key) not in called:
+                out.append(b)      # never inlined anywhere: judge it on its own
+        self.chk.note("helper functions not on the pinned tree, judged inlined into their callers: %s" % sorted(new - standalone))
+        return out
+
     def sources(self, bodies, select=None):
+        bodies = self.views(bodies)
         src = panics.enumerate_sources(self.P, bodies)
         if select:
             src = [i for i in src if select(i)]
         self.chk.add_sites(len(src))
+        pending = []
         for inst in sorted(src, key=lambda i: i.key):
-            self.settle(R_SRC, inst.key, inst.body.loc(inst.bb), inst.detail, panics.try_discharge(self.P, inst))
+            auto = panics.try_discharge(self.P, inst)
+            if auto or inst.key in self.entries or ("%s|%s" % (R_SRC, inst.key)) in self.chk.known:
+                self.settle(R_SRC, inst.key, inst.body.loc(inst.bb), inst.detail, auto)
+            else:
+                pending.append(inst)
+        # sites whose code moved (helper inlined into its caller, function renamed): same kind and operands as a tabled
+        # site of the same source file whose own function no longer has it
+        for inst in pending:
+            portable = inst.key.split("|", 1)[1] if "|" in inst.key else inst.key
+            moved = None
+            for k, e in self.entries.items():
+                if k in self.used or "|" not in k:
+                    continue
+                if k.split("|", 1)[1].split("#")[0] == portable.split("#")[0]:
+                    fn = k.split("|", 1)[0]
+                    ob = self.P.bodies.get(fn)
+                    same_file = ob is None or ob.file == inst.body.file
+                    still_there = ob is not None and any(i2.key == k for i2 in src)
+                    if same_file and not still_there:
+                        moved = k
+                        break
+            if moved is not None:
+                e = self.entries[moved]
+                self.used.add(moved)
+                if self.support_ok(e.get("support", [])):
+                    self.chk.ok(R_SRC, inst.key, inst.body.loc(inst.bb), "table (site moved from %s): %s" % (moved.split("|", 1)[0], e["reason"]))
+                    continue
+            self.settle(R_SRC, inst.key, inst.body.loc(inst.bb), inst.detail, None)
         return src
 
     def ranges(self, bodies):
+        bodies = self.views(bodies)
         self.chk.rule(R_RANGE, "no consuming call on an unbounded std iterator (RangeFrom, repeat, ...)")
         r = panics.range_from_sources(self.P, bodies)
         for inst in r:
@@ -549,6 +630,7 @@ class Surface:
         return r
 
     def loops(self, bodies):
+        bodies = self.views(bodies)
         self.chk.rule(R_LOOP, "every natural loop exits on None of a finite std iterator, or is tabled")
         loops = panics.loop_sources(self.P, bodies)
         for inst, why in loops:
